@@ -250,6 +250,37 @@ def accessor(ctx):
     ctx.sample(sub, {"raster": "2x2, every value assignment as time steps", "backends": ["numpy", "dask (time chunks of 7)"]})
 
 
+def attr_histories(ctx):
+    """zonal.mean on long-lived objects whose nodata attributes (of the value cube, and of the zone raster) are
+    edited in place between calls."""
+    import pandas as pd
+    import xarray as xr
+    from .. import histories
+    sub = "attr_histories"
+    time = pd.date_range("2000-01-01", periods=3, freq="D")
+    vals = np.array([[[5, 0], [7, -9999]], [[0, 0], [3, 7]], [[7, 7], [-9999, 2]]], dtype="int16")
+    zones = np.array([[0, 1], [1, 0]], dtype="int16")
+    same = lambda a, b: np.array_equal(a, b, equal_nan=True)
+
+    def make_v():
+        return xr.DataArray(vals.copy(), dims=("time", "y", "x"), coords={"time": time}, name="v")
+
+    zfix = xr.DataArray(zones.copy(), dims=("y", "x"), attrs={"nodata": 255})
+    h = histories.explore(make_v, "nodata", [histories.ABSENT, -9999, 0, 7], lambda da: np.asarray(da.hdc.zonal.mean(zfix, [0, 1]).values).copy(), same, 3, ctx, sub,
+                          "zonal.mean[value cube attrs]")
+
+    # the zone raster: its own accessor object is not used by zonal.mean, the attribute is read from it on every call
+    vfix = xr.DataArray(vals.copy(), dims=("time", "y", "x"), coords={"time": time}, name="v", attrs={"nodata": -9999})
+
+    def make_z():
+        return xr.DataArray(zones.copy(), dims=("y", "x"))
+
+    h += histories.explore(make_z, "nodata", [histories.ABSENT, 255, 0, 1], lambda z: np.asarray(vfix.hdc.zonal.mean(z, [0, 1]).values).copy(), same, 3, ctx, sub,
+                           "zonal.mean[zone raster attrs]")
+    ctx.note_add("attr_histories", h)
+    ctx.sample(sub, {"attr": "nodata", "values_cube": ["<absent>", -9999, 0, 7], "values_zones": ["<absent>", 255, 0, 1], "depth": 3})
+
+
 def run(ctx):
     zm = _zonal()
     zm.do_mean(np.zeros((1, 1, 1), "int16"), np.zeros((1, 1), "int16"), 1, ND, ZND, np.float32)
@@ -273,6 +304,7 @@ def run(ctx):
     many_zones_and_perms(ctx)
     zone_dtypes(ctx)
     accessor(ctx)
+    attr_histories(ctx)
 
 
 def replay(sub, case, p):
@@ -291,6 +323,8 @@ def replay(sub, case, p):
         large_zones(p)
     elif case["kind"] == "zdt":
         zone_dtypes(p)
+    elif case["kind"] == "attr_history":
+        attr_histories(p)
     elif case["kind"] == "perm":
         many_zones_and_perms(p)
     else:
